@@ -7,9 +7,9 @@ import collections
 
 from mc.engine import Harness, Result, V
 from mc.heapfp import try_fingerprint
-from harness.dispatch_world import World, make_vals, B1, B2
+from harness.dispatch_world import World, make_vals, B1, B2, EQ_DOMAIN
 
-NVALS = 22   # value tokens 0..21 form the equality domain
+NVALS = len(EQ_DOMAIN)
 
 
 def W(i, names, **kw):
@@ -79,7 +79,7 @@ class C03(Harness):
                 mw = [w for w in world.model.W if w['id'] == 'w%d' % i][0]
                 ops.append(['unwatch', i] if mw['active'] else ['watch', i])
         elif s == 'filtering':
-            ops = [['set', 'a', v] for v in range(NVALS)]
+            ops = [['set', 'a', v] for v in EQ_DOMAIN]
         elif s == 'cascade':
             ops = [['set', 'a', 1], ['set', 'a', 2], ['set', 'b', 1], ['set', 'b', 2], ['set', 'n', 2], ['set', 'n', 1],
                    ['update', [['a', 1], ['b', 2]]], ['update', [['a', 2], ['n', 2]]]]
